@@ -285,6 +285,20 @@ def trail_{l1}_{l2}(has_trail: bool, tok: str, tok2: str) -> bool:
 def replay_trail_{l1}_{l2}(has_trail, tok, tok2):
     return replay_link_trail(has_trail, tok, tok2)
 ''')
+    out.append('''
+def tokq_all(level: int, q: str, v: str) -> bool:
+    """
+    pre: 0 <= level <= 3
+    pre: len(q) == 1 and q[0] in "'" + chr(34)
+    pre: len(v) == 1 and v[0] in "ab "
+    post: _
+    """
+    return tokens_unmasked(level, q, v)
+
+
+def replay_tokq_all(level, q, v):
+    return replay_tokens_unmasked(level, q, v)
+''')
     return "\n".join(out)
 
 
@@ -303,7 +317,8 @@ def run(rep: C.Report) -> None:
     xh.check_harness(
         rep,
         H,
-        {"^trail_": dict(name="Ob8 text arriving after a closed link: the link keeps at most one (trail) string, nothing is lost or reordered", functions=["parser.py:text_fn (link trail)"], bounds="link with or without a trail; one token of 1..2 (thorough 3) or two tokens of 1..2 symbolic characters over {a,s,space,!,'}"),
+        {"^tokq_": dict(name="Ob10 the tokenizer's quote mask never leaves token_iter (plain lines and heading titles)", functions=["parser.py:token_iter"], bounds="line with a tag carrying two quoted attributes, plain or as the title of a heading of level 1..3; quote character and one value character symbolic"),
+         "^trail_": dict(name="Ob8 text arriving after a closed link: the link keeps at most one (trail) string, nothing is lost or reordered", functions=["parser.py:text_fn (link trail)"], bounds="link with or without a trail; one token of 1..2 (thorough 3) or two tokens of 1..2 symbolic characters over {a,s,space,!,'}"),
          "^magic_": dict(name="Ob7 re-parsing the arguments of a saved template / parameter reference / link / external link leaves nothing open that it opened and never pops ROOT (no exception)", functions=["parser.py:magic_fn", "parser.py:_parser_pop", "parser.py:process_text"], bounds="4 construct kinds x {top level, table cell} x optional open italic x 2 (thorough 3) arguments each drawn from 10 argument texts with open/close formatting, rule and list lines (symbolic indices: solver-driven case split)"),
          "^url_": dict(name="Ob6 the URL part of an external link is merged and finalized when it becomes an argument", functions=["parser.py:text_fn (URL whitespace branch)"], bounds="2..3 string children of one symbolic char over {a, space, placeholder}"),
          "^attrs_": dict(name="Ob5 no placeholder character survives in attribute values when a node is popped", functions=["parser.py:_parser_pop"], bounds=f"attribute value of 0..{2 if quick else 3} symbolic chars over {{a, space, placeholder}}; HTML element and table row"),
